@@ -177,14 +177,17 @@ Ltac f_leaf :=
   | H : context [match b_cs ?s with BConnecting => _ | _ => _ end] |- _ => destruct (b_cs s) eqn:?
   | |- context [match b_cs ?s with BConnecting => _ | _ => _ end] => destruct (b_cs s) eqn:?
   end;
+  bproj;
   repeat match goal with
   | H : context [if ?b then ?s else set_now ?t ?s] |- _ => destruct b
   | |- context [if ?b then ?s else set_now ?t ?s] => destruct b
   end;
   cbv beta; bproj; f_chk;
   unfold invF, should_exit in *; bproj;
+  repeat match goal with H : b_cs ?x = _ |- _ => is_var x; try rewrite H in *; clear H end;
   repeat match goal with H : b_sock ?x = _ |- _ => rewrite H in *; clear H end;
   repeat (f_obs; bproj);
+  repeat match goal with c : bst |- _ => lazymatch goal with H : negb (is_async (b_cs c)) || negb (disc_like (b_cs c)) = true |- _ => fail | _ => pose proof (async_not_disc (b_cs c)) end end;
   (* the defining equations of the intermediate states are used up: substitute them everywhere *)
   repeat match goal with
   | H : b_acted ?x = _ |- _ => is_var x; try rewrite H in *; clear H
@@ -194,7 +197,6 @@ Ltac f_leaf :=
   end;
   cbn [is_pending is_nosock is_afterwait is_first_or_inner disc_like is_async andb orb negb xorb] in *;
   clear_junk;
-  repeat match goal with c : bst |- _ => lazymatch goal with H : negb (is_async (b_cs c)) || negb (disc_like (b_cs c)) = true |- _ => fail | _ => pose proof (async_not_disc (b_cs c)) end end;
   ttaut.
 
 Lemma F_step cfg : forall p s c, invF cfg p s c = true -> is_done p = false ->
@@ -210,7 +212,7 @@ Proof.
   destruct c.
   all: destruct p; try discriminate; unfold step, loop_once, loop_up, read_pending; bproj.
   all: repeat f1.
-  all: subst G; f_leaf.
+  all: subst G; timeout 100 f_leaf.
 Qed.
 
 Theorem final_no_attempt : forall cfg t0 script,
